@@ -75,6 +75,7 @@ class Contract:
         self.must_fail = _lst(kw.pop("must_fail", ()))  # clauses that MUST be refutable (vacuity guard)
         self.assert_at = kw.pop("assert_at", None) or []  # [(pattern, [clauses])] mid-function assertions
         self.stop_at = kw.pop("stop_at", None)  # pattern: verify only the slice before this statement
+        self.slice_from = kw.pop("slice_from", None)  # pattern: verify only this statement (mechanically extracted); its free variables become parameters
         self.lemmas = kw.pop("lemmas", None) or []
         self.verify = kw.pop("verify", True)  # False: contract is ASSUMED (trusted), used at call sites only
         self.exact_self_class = kw.pop("exact_self_class", False)
